@@ -30,6 +30,16 @@ def run_one(frozen, root, mid, patch, props_to_run, tier):
             return mid, dict(error="patch does not apply: " + (r.stderr or r.stdout)[:200])
     env = dict(os.environ, VERIF_REPO=work + "/repo", VERIF_EVIDENCE_DIR=work + "/ev", VERIF_REPLAY_DIR=work + "/rep",
                VERIF_SCRATCH=work)
+    if not os.environ.get("SEEDED_FULL"):
+        # page-table family: run only the harnesses of the mapper(s) the change can reach (a subset that reports the
+        # violation is a lower bound for the registered check, which runs a superset)
+        files = " ".join(l[6:].strip() for l in open(patch) if l.startswith("+++ b/"))
+        if files.strip().endswith("mapper/recursive_page_table.rs"):
+            env["VERIF_SKIP"] = "_off_,pt_map,pt_unmap,pt_upd,pt_tr,pt_pf,pt_mapto,pt_ident,ptt_"
+        elif files.strip().endswith("mapper/offset_page_table.rs"):
+            env["VERIF_ONLY"] = "_off_,c09_,c01_,c02_"
+        elif files.strip().endswith("mapper/mapped_page_table.rs"):
+            env["VERIF_SKIP"] = "ptr_,ptrt_,c10_rec,c10t_rec"
     out = {}
     for prop in props_to_run:
         t0 = time.time()
